@@ -51,6 +51,44 @@ Definition swap_remove {A} (l : list A) (i : nat) : res (list A) :=
       end
   end.
 
+(* ---------------- the optimiser as a procedure that RECEIVES the cost function ----------------
+   argmin's Executor::run with NelderMead (track_fitting.rs:102-109, vertex_fitting.rs:76-83) is modelled as an
+   interaction tree: it asks the cost function for its value at a parameter vector and continues according to the
+   answer, finitely often (max_iters is configured), and ends with state.best_param -- or it fails by itself
+   (`Crash`: run() returned Err or argmin panicked, so `.unwrap()` at :108 panics).  Nothing else of argmin is modelled:
+   WHICH vectors it asks is the tree, a Section variable of the theorems.  By construction the cost function is called
+   only on the vectors asked along the path its own answers select, and a panic of the cost function is the panic of
+   the fit. *)
+Inductive strategy (F : Type) : Type :=
+| Done (best : option (list F))                 (* res.state.best_param *)
+| Crash                                         (* Executor::run() is Err / argmin panics *)
+| Ask (p : list F) (k : F -> strategy F).       (* problem.cost(&p)? *)
+Arguments Done {F} best.
+Arguments Crash {F}.
+Arguments Ask {F} p k.
+
+(* Executor::new(problem, solver).run().unwrap(): Problem::cost returns Ok(value) or panics; an Err would be turned into
+   a panic by the unwrap at :108 *)
+Fixpoint run_strategy {F} (c : list F -> res F) (t : strategy F) : res (option (list F)) :=
+  match t with
+  | Done b => Ok b
+  | Crash => Panic
+  | Ask p k => match c p with Ok y => run_strategy c (k y) | _ => Panic end
+  end.
+(* the parameter vectors the cost function is called on, in order (up to and including the first call that fails) *)
+Fixpoint asked {F} (c : list F -> res F) (t : strategy F) : list (list F) :=
+  match t with
+  | Done _ | Crash => []
+  | Ask p k => p :: match c p with Ok y => asked c (k y) | _ => [] end
+  end.
+(* what is ASSUMED of argmin (hypothesis N4 / V4 of C14): as long as the answers are `good` numbers (for the real code:
+   not NaN), every vector it asks has the dimension n of the simplex, it does not fail by itself, and best_param is a
+   vector it has asked before *)
+Inductive wf_strategy {F} (good : F -> Prop) (n : nat) : list (list F) -> strategy F -> Prop :=
+| wf_done : forall seen v, In v seen -> wf_strategy good n seen (Done (Some v))
+| wf_ask : forall seen p k, length p = n -> (forall y, good y -> wf_strategy good n (p :: seen) (k y)) ->
+           wf_strategy good n seen (Ask p k).
+
 Section Skeleton.
   Variable F : Type.                                   (* f64 *)
   Variable point : Type.                               (* SpacePoint *)
@@ -157,6 +195,11 @@ Section Skeleton.
           tr_t_inner := closest bp first;                                    (* :122 *)
           tr_t_outer := closest bp last |})).                                (* :123 *)
 
+  (* the initial simplex the fit hands to the optimiser (:40-95); fit_cluster_to_helix = this, then :97-124 *)
+  Definition fit_simplex (pts : list point) : res (list (list F)) :=
+    do '(first, middle, last) <- three_template_points pts;
+    initial_simplex (guess6 pts first middle last).
+
   (* ---------------- beamline_clusters / find_vertices (vertex_fitting.rs) ---------------- *)
   Variable T : Type.                                                         (* Track *)
   Variable teq : T -> T -> bool.                                             (* derived PartialEq *)
@@ -246,6 +289,18 @@ Section Skeleton.
       end;
     do remainder <- remove_all (match vtx with None => [] | Some v => map fst (v_tracks v) end) tracks;
     Ok (vtx, remainder).
+
+  (* the tracks and the mean z the vertex fit is run on (:31-51); find_vertices = this, then :52-128 *)
+  Definition vertex_best (tracks : list T) : res (option (list T * F)) :=
+    let primary := filter is_primary tracks in
+    do bc <- beamline_clusters primary;
+    let cands := max_set_len (filter (fun c => (1 <? length (fst c))%nat) bc) in
+    match cands with
+    | [] => Ok None
+    | c :: t =>
+        do b <- max_by_res (fun a b => unwrap (fcmp (sumF (map t_rad (fst a))) (sumF (map t_rad (fst b))))) c t;
+        Ok (Some b)
+    end.
 End Skeleton.
 
 (* ---------------- binary64 instance of three_template_points (differential tag `fit3`) ---------------- *)
@@ -262,15 +317,36 @@ Definition fit3_outcome (L : libm) (pts : list spoint) : N :=
   if (length pts <? 3)%nat then 2%N
   else match three_template_prim L pts with Ok _ => 1%N | Err _ => 0%N | Panic => 2%N end.
 
-(* ---------------- OPEN FINDING `tinyphi` (C14): recogniser of the class and the witness ---------------- *)
-(* the class: a cluster of at least 3 points, radii in [0.05, 0.25] m, every |phi| <= 1e-160 rad (so the cluster is
-   straight to better than 1e-155 m) and not all phi equal to zero.  On this class hypothesis (N3) of
-   C14_fit_skeleton_total is FALSE of the implementation: unless the points are exactly collinear the initial circle has
-   a radius > 1e154 m and closest_t evaluates 4 pi^2 r R / h^2 = inf / inf. *)
-Definition tinyphi_class (pts : list spoint) : bool :=
-  (3 <=? length pts)%nat
-  && forallb (fun p => (abs (sp_phi p) <=? 0x1p-532) && (0x1.999999999999ap-5 <=? sp_r p) && (sp_r p <=? 0.25)) pts
-  && negb (forallb (fun p => sp_phi p =? 0) pts).
+(* ---------------- OPEN FINDING `tinyphi` (C14, F9): recogniser of the class and the witness ---------------- *)
+(* The class, as measured on the implementation (harness/phys/src/c14.rs, comment at R_CLASS): the three template points
+   are not collinear in the sense of the code (three_template_points returns Ok) and the circle through them -- the
+   initial guess of the fit -- has a radius R >= 1e136 m.  On this class the numeric hypothesis (N3) of
+   C14_fit_skeleton_total is FALSE of the implementation for almost every member with R >= 1e138 m: the optimiser is
+   handed, or wanders to, parameter vectors for which closest_t evaluates inf/inf or inf * 0.
+   The definition performs the same binary64 operations in the same order as the harness recogniser
+   `c14::tinyphi_class` (differential tag `cls14`):  R = |fm| |ml| |lf| / (2 |cross|), cross the exact doubled area
+   (Dekker's error-free product from plain operations, no fma), the test is  |fm| |ml| |lf| >= 2 * 1e136 * |cross|. *)
+Definition R_CLASS : float := 0x1.b843422e3a84dp+451.      (* 1e136 *)
+Definition vsplit (x : float) : float * float :=
+  let c := 134217729 * x in let hi := c - (c - x) in (hi, x - hi).
+Definition two_prod_err (a b p : float) : float :=
+  let '(ah, al) := vsplit a in let '(bh, bl) := vsplit b in
+  al * bl - (((p - ah * bh) - al * bh) - ah * bl).
+Definition tinyphi_class (L : libm) (pts : list spoint) : bool :=
+  if (length pts <? 3)%nat then false
+  else match three_template_prim L pts with
+  | Ok (f, m, l) =>
+      let '(fx, fy) := (sp_x L f, sp_y L f) in
+      let '(mx, my) := (sp_x L m, sp_y L m) in
+      let '(lx, ly) := (sp_x L l, sp_y L l) in
+      let a := lx - fx in let b := my - fy in let c := mx - fx in let d := ly - fy in
+      let p1 := a * b in let p2 := c * d in
+      let cross := abs ((p1 - p2) + (two_prod_err a b p1 - two_prod_err c d p2)) in
+      let side u v := sqrt (u * u + v * v) in
+      let num := side c b * side (lx - mx) (ly - my) * side a d in
+      2 * R_CLASS * cross <=? num
+  | _ => false
+  end.
 (* the corpus witness corpus/C14/tinyphi.case: (r, phi, z) = (0.11, 1e-165, 0), (0.15, -2e-165, 0.1), (0.19, 3.5e-165, 0.2) *)
 Definition tinyphi_witness : list spoint :=
   [ mk_spoint 0x1.c28f5c28f5c29p-4 0x1.d7becc2f23ac2p-549 0;
@@ -286,3 +362,107 @@ Definition tinyphi_guess : helix :=
 Definition tinyphi_libm : libm :=
   {| lsin := fun x => x; lcos := fun _ => 1; latan2 := fun _ _ => - 0x1.921fb54442d18p+0;
      lhypot := fun _ b => abs b; lfloor := fun x => x |}.
+
+(* track_fitting.rs:112-119 / :245-252: the helix built from six parameters *)
+Definition helix_of_params (l : list PrimFloat.float) : helix :=
+  let g i := nth i l PrimFloat.zero in mk_helix (g 0%nat) (g 1%nat) (g 2%nat) (g 3%nat) (g 4%nat) (g 5%nat).
+
+(* ---------------- a binary64 instance with the REAL cost kernel (satisfiability of the C14 hypotheses) ----------------
+   Everything the theorems leave abstract is given a computable binary64 definition, as close to the code as Coq can
+   evaluate: the cost kernel is the line-by-line model of coq/Recon/Helix.v (norm_sqr(q, helix.at(helix.closest_t(q))),
+   track_fitting.rs:258-261, tied bit for bit by C16), over a software libm (Taylor / argument reduction; about 1e-15
+   accurate, NOT glibc), and the optimiser is a small simplex prober `mini_nm`: it asks every vertex of the initial
+   simplex (as NelderMead::init does), then one reflection 2 * best - worst, and returns the best vector it has asked. *)
+Module B64.
+  (* floor for |x| < 2^51 by the round-to-integer trick; larger values are integers already *)
+  Definition sfloor (x : float) : float :=
+    if abs x <? 0x1p51 then let r := (x + 0x1.8p52) - 0x1.8p52 in if x <? r then r - 1 else r else x.
+  (* sum_{i} (-1)^i y^(2i+s) / (2i+s)!  (s = 1: sin, s = 0: cos), n terms after the first *)
+  Fixpoint tayl (n : nat) (k term acc y2 : float) : float :=
+    match n with
+    | O => acc
+    | S m => let term' := - (term * y2) / ((k + 1) * (k + 2)) in tayl m (k + 2) term' (acc + term') y2
+    end.
+  Definition reduce (x : float) : float := x - sfloor (x / TWO_PI + 0.5) * TWO_PI.        (* into [-pi, pi] *)
+  Definition ssin (x : float) : float := let y := reduce x in tayl 16 1 y y (y * y).
+  Definition scos (x : float) : float := let y := reduce x in tayl 16 0 1 1 (y * y).
+  (* atan z = z - z^3/3 + ..  after halving the angle twice *)
+  Fixpoint atl (n : nat) (k pw acc z2 : float) : float :=
+    match n with
+    | O => acc
+    | S m => let pw' := - (pw * z2) in atl m (k + 2) pw' (acc + pw' / (k + 2)) z2
+    end.
+  Definition satan_small (z : float) : float :=
+    let h u := u / (1 + sqrt (1 + u * u)) in let w := h (h z) in 4 * atl 14 1 w w (w * w).
+  Definition satan (z : float) : float :=
+    if abs z <=? 1 then satan_small z
+    else if 0 <? z then PI / 2 - satan_small (1 / z) else - (PI / 2) - satan_small (1 / z).
+  Definition satan2 (y x : float) : float :=
+    if 0 <? x then satan (y / x)
+    else if x <? 0 then (if y <? 0 then satan (y / x) - PI else satan (y / x) + PI)
+    else if 0 <? y then PI / 2 else if y <? 0 then - (PI / 2) else 0.
+  Definition soft_libm : libm :=
+    {| lsin := ssin; lcos := scos; latan2 := satan2; lhypot := fun a b => sqrt (a * a + b * b); lfloor := sfloor |}.
+
+  (* Problem::cost, the summand (track_fitting.rs:258-261) *)
+  Definition real_point_val (L : libm) (p : list float) (q : spoint) : float :=
+    let H := helix_of_params p in
+    let t := closest_t L H q EPS 20 in
+    let '(x, y, z) := helix_at L H t in
+    let dx := x - sp_x L q in let dy := y - sp_y L q in let dz := z - sp_z q in
+    dx * dx + dy * dy + dz * dz.
+
+  Section MiniNM.
+    Variable F : Type.
+    Variables (fltb : F -> F -> bool) (fadd fsub : F -> F -> F).
+    Fixpoint ask_all (vs : list (list F)) (acc : list (list F * F)) (k : list (list F * F) -> strategy F) : strategy F :=
+      match vs with
+      | [] => k acc
+      | v :: t => Ask v (fun y => ask_all t ((v, y) :: acc) k)
+      end.
+    Fixpoint pick (better : F -> F -> bool) (cur : list F * F) (l : list (list F * F)) : list F * F :=
+      match l with
+      | [] => cur
+      | x :: t => pick better (if better (snd x) (snd cur) then x else cur) t
+      end.
+    Fixpoint map2 (f : F -> F -> F) (a b : list F) : list F :=
+      match a, b with
+      | x :: a', y :: b' => f x y :: map2 f a' b'
+      | _, _ => []
+      end.
+    Definition mini_nm (s : list (list F)) : strategy F :=
+      ask_all s [] (fun ev =>
+        match ev with
+        | [] => Crash
+        | e :: t =>
+            let b := pick fltb e t in
+            let w := pick (fun x y => fltb y x) e t in
+            let xr := map2 (fun bi wi => fadd bi (fsub bi wi)) (fst b) (fst w) in
+            Ask xr (fun y => Done (Some (fst (pick fltb (xr, y) ev))))
+        end).
+  End MiniNM.
+
+  (* three points of the helix x0 = 0.3, y0 = 0, z0 = 0, r = 0.25, phi0 = pi, h = 1 m at t = 0.2, 0.35, 0.5 (r, phi, z) *)
+  Definition pts : list spoint :=
+    [ mk_spoint 0x1.2f7dd836a13ffp-4 (-0x1.78234260f36d7p-1) 0x1.04c26be3b06cfp-5;
+      mk_spoint 0x1.b90a55610dda0p-4 (-0x1.d77d8cf79fac9p-1) 0x1.c8543cce74beap-5;
+      mk_spoint 0x1.27cf9e3b1d7d6p-3 (-0x1.f5202015dafdfp-1) 0x1.45f306dc9c883p-4 ].
+  (* an initial guess near it: 0.31, 0.01, 0, 0.26, pi, 0.9 *)
+  Definition guess6 (_ : list spoint) (_ _ _ : spoint) : list float :=
+    [0x1.3d70a3d70a3d7p-2; 0x1.47ae147ae147bp-7; 0; 0x1.0a3d70a3d70a4p-2; PI; 0x1.ccccccccccccdp-1].
+  Definition bump (x : float) : float := if x =? 0 then 0x1.0624dd2f1a9fcp-12 else x * 0x1.0cccccccccccdp+0.
+  Definition tree : list (list float) -> strategy float := mini_nm float PrimFloat.ltb PrimFloat.add PrimFloat.sub.
+  Definition fit : list spoint -> res (track float) :=
+    fit_cluster_to_helix float spoint sp_r (sp_x soft_libm) (sp_y soft_libm) PrimFloat.ltb PrimFloat.eqb fcmp_prim
+      PrimFloat.is_nan PrimFloat.add PrimFloat.sub PrimFloat.mul (fun x => x / 2) PrimFloat.abs 0
+      guess6 bump (real_point_val soft_libm) (fun hp q => closest_t soft_libm (helix_of_params hp) q EPS 20)
+      (fun c s => run_strategy c (tree s)) true.
+  Definition the_cost : list float -> res float :=
+    cost float spoint PrimFloat.is_nan PrimFloat.add 0 (real_point_val soft_libm) pts.
+  Definition the_simplex : list (list float) :=
+    match fit_simplex float spoint sp_r (sp_x soft_libm) (sp_y soft_libm) PrimFloat.ltb PrimFloat.eqb fcmp_prim
+            PrimFloat.add PrimFloat.sub PrimFloat.mul (fun x => x / 2) PrimFloat.abs guess6 bump pts with
+    | Ok s => s
+    | _ => []
+    end.
+End B64.
